@@ -146,8 +146,22 @@ def _build_driver(wd, cfg='prod', has=None, extra='', name='tjdrive', wraps=(), 
     return exe
 
 
-def run_driver(exe, plan_lines, timeout=600, env=None, prefix=None):
-    """Execute plan lines; returns list of events (dicts). A crash/timeout yields a Fault event."""
+def run_driver(exe, plan_lines, timeout=600, env=None, prefix=None, _depth=0):
+    """Execute plan lines; returns list of events (dicts). A crash/timeout yields a Fault event; the plan is then
+    resumed in a fresh process at the next 'reset' line (at most a few times), so one crash does not hide the rest."""
+    events, err = _run_driver_once(exe, plan_lines, timeout, env, prefix)
+    if events and events[-1].get('e') == 'Fault' and _depth < 6:
+        fid = events[-1].get('id')
+        idx = next((i for i, ln in enumerate(plan_lines) if re.search(rf'\bid={re.escape(str(fid))}(\s|$)', ln)), None)
+        if idx is not None:
+            nxt = next((j for j in range(idx + 1, len(plan_lines)) if plan_lines[j].startswith('reset')), None)
+            if nxt is not None:
+                more, err2 = run_driver(exe, plan_lines[nxt:], timeout, env, prefix, _depth + 1)
+                return events + more, err + err2
+    return events, err
+
+
+def _run_driver_once(exe, plan_lines, timeout=600, env=None, prefix=None):
     inp = '\n'.join(plan_lines) + '\n'
     cmd = [exe] if prefix is None else prefix + [exe]
     try:
